@@ -76,6 +76,8 @@ def build(variant="prod"):
 
 
 def zv_path(variant="prod"):
+    if variant == "prod" and os.environ.get("VERIF_ZV_BIN"):
+        return os.environ["VERIF_ZV_BIN"]     # bin/coverage: a coverage-instrumented build of the same sources
     return os.path.join(HARNESS, VARIANTS[variant][0], "release", "zv")
 
 
@@ -123,8 +125,6 @@ def zv(variant, args, timeout=1800):
     build(variant)
     t0 = time.time()
     exe = zv_path(variant)
-    if variant == "prod" and os.environ.get("VERIF_ZV_BIN"):
-        exe = os.environ["VERIF_ZV_BIN"]     # bin/coverage: a coverage-instrumented build of the same sources
     p = subprocess.run([exe] + [str(a) for a in args], cwd=ROOT, env=base_env(),
                        stdout=subprocess.PIPE, stderr=subprocess.STDOUT, text=True, timeout=timeout)
     if p.returncode == 3 and _recover_hung(args):
